@@ -148,7 +148,7 @@ def _p_pos(x):
 
 
 def _p_nonempty(x):
-    return hasattr(x, '__len__') and len(x) > 0
+    return (not isinstance(x, type)) and hasattr(x, '__len__') and len(x) > 0
 
 
 def _p_even(x):
@@ -160,7 +160,7 @@ def _p_truthy(x):
 
 
 def _p_short(x):
-    return hasattr(x, '__len__') and len(x) < 3
+    return (not isinstance(x, type)) and hasattr(x, '__len__') and len(x) < 3
 
 
 def _p_always(x):
@@ -729,6 +729,7 @@ LEAF_OBJS = [
     {'o': 'inst', 'c': 'A'}, {'o': 'inst', 'c': 'B'}, {'o': 'inst', 'c': 'C'},
     {'o': 'inst', 'c': 'NoWeak', 'v': 3}, {'o': 'inst', 'c': 'Named'},
     {'o': 'clsobj', 'c': 'A'}, {'o': 'clsobj', 'c': 'B'}, {'o': 'clsobj', 'c': 'int'}, {'o': 'clsobj', 'c': 'bool'},
+    {'o': 'clsobj', 'c': 'float'}, {'o': 'clsobj', 'c': 'complex'}, {'o': 'clsobj', 'c': 'str'},
 ]
 
 VALIDATORS = [
@@ -809,7 +810,7 @@ def gen_hint(rng, depth=3, hashable=False, families=None, leafy=0.3):
         if r < 0.15:
             return {'k': 'type', 'a': []}
         if r < 0.7:
-            inner = {'k': 'cls', 'n': rng.choice(['int', 'A', 'B', 'C', 'str', 'bool', 'Named'])}
+            inner = {'k': 'cls', 'n': rng.choice(['int', 'A', 'B', 'C', 'str', 'bool', 'Named', 'float', 'complex'])}
         elif r < 0.85:
             inner = {'k': 'union', 'a': [{'k': 'cls', 'n': 'A'}, {'k': 'cls', 'n': rng.choice(['int', 'C', 'str'])}]}
         elif r < 0.93:
@@ -1236,6 +1237,30 @@ def _hashable(o, env):
         return True
     except TypeError:
         return False
+
+
+def gen_one_bad(rng, h, maxlen=6, env=None):
+    """For a hint whose *top level* is a randomly sampled sequence (list/Sequence/MutableSequence/variadic tuple):
+    (object DSL, index) where exactly the item at ``index`` must be rejected and all others conform."""
+    k = h['k']
+    if k not in ('seq', 'vtuple'):
+        raise CannotGenerate(h)
+    child = h['a'][0]
+    n = rng.randint(2, maxlen)
+    i = rng.randrange(n)
+    bad, _ = gen_violating(rng, child, 2, False, env)
+    items = []
+    for j in range(n):
+        items.append(bad if j == i else gen_conforming(rng, child, 2, env))
+    for j, it in enumerate(items):
+        x = build_obj(it, env)
+        if (j == i) != bool(must_reject(child, x, False, env)) or (j != i and not conforms(child, x, False, env)):
+            raise CannotGenerate(h)
+    if k == 'vtuple':
+        return {'o': 'tuple', 'i': items}, i
+    oc = SEQ_ORIGINS[h['o']][1]
+    kind = 'list' if oc in (list, cabc.MutableSequence) else rng.choice(['list', 'tuple'])
+    return {'o': kind, 'i': items}, i
 
 
 def seq_lengths(h, o):
